@@ -104,7 +104,7 @@ static void emit_tabs(void) {
 static op_t g_ops[MAXOPS + 8];
 typedef struct {
    /* measurements (coverage evidence only) */
-   unsigned mext; int pfd, crun, runs, first_err_op, npatch_err, shrink_moved;
+   unsigned mext; int pfd, crun, runs, first_err_op, npatch_err, shrink_moved, term_eq;
 } meas_t;
 
 static void apply_enc(ec_enc *enc, const op_t *o) {
@@ -178,6 +178,7 @@ static void run_exec(next_fn next, void *ctx, int size0, int fill, int fit, meas
       g_ops[n++] = o;
    }
    tb = ec_tell(&enc); e0 = enc.error;
+   { int lg = EC_ILOG(enc.rng) - 1; M->term_eq = lg >= 1 && ((((uint64_t)enc.val + enc.rng + 1) & ((1u << lg) - 1)) == 0) && (enc.val & ((1u << lg) - 1)) != 0; }
    ec_enc_done(&enc);
    { int j; for (j = enc.storage; j < size0; j++) if (B.p[j] != tail[j]) tdiff++; }
    /* decoder over the same calls; with garble the driver first overwrites the stream with random bytes so that
@@ -223,8 +224,8 @@ static void run_exec(next_fn next, void *ctx, int size0, int fill, int fit, meas
    printf("]");
    quad("et", et0, ef0, er0); quad("dt", dt0, df0, dr0);
    printf(",\"can\":%d,\"tdiff\":%d,\"dmod\":%d", hx_buf_ok(&B), tdiff, dmod);
-   printf(",\"nops\":%d,\"offs\":%u,\"eoffs\":%u,\"mext\":%u,\"pfd\":%d,\"crun\":%d,\"runs\":%d,\"ferr\":%d,\"perr\":%d,\"smov\":%d}\n",
-          n, enc.offs, enc.end_offs, M->mext, M->pfd, M->crun, M->runs, M->first_err_op, M->npatch_err, M->shrink_moved);
+   printf(",\"nops\":%d,\"offs\":%u,\"eoffs\":%u,\"mext\":%u,\"pfd\":%d,\"crun\":%d,\"runs\":%d,\"ferr\":%d,\"perr\":%d,\"smov\":%d,\"teq\":%d}\n",
+          n, enc.offs, enc.end_offs, M->mext, M->pfd, M->crun, M->runs, M->first_err_op, M->npatch_err, M->shrink_moved, M->term_eq);
    for (i = 0; i < n; i++) {
       op_t *o = &g_ops[i];
       printf("{\"k\":\"op\",\"o\":\"%s\"", (o->k == K_ICDF && tabs[o->tab].p16) ? "icdf16" : kname[o->k]);
@@ -251,6 +252,7 @@ static void run_exec(next_fn next, void *ctx, int size0, int fill, int fit, meas
 typedef struct {
    hx_rng *r; int target, mode, size0, fit, pad_exact, padding, nplace, placed_bits, patch_at, patch_done, malformed_patch;
    int w[8];
+   int term_phase, term_pre, term_over, term_size;   /* mode 6: termination boundary */
 } rctx_t;
 
 static uint32_t rnd_logu(hx_rng *r, int maxbits) {   /* log-uniform in 1..2^maxbits-1 (or up to 2^32-1) */
@@ -353,11 +355,73 @@ static int next_rand(void *vc, ec_enc *enc, int i, op_t *o) {
    return 1;
 }
 
+/* ---- mode 6: the termination boundary of ec_enc_done --------------------------------------------------
+   ec_enc_done emits one more bit when (end|msk) >= val+rng.  Equality is a measure-zero event (about 2^-23 per
+   stream), so it is constructed: after a few random symbols the driver looks at the encoder state and searches
+   an ec_encode(0,fh,ft) after which  val+rng+1 == 0 (mod 2^(ilog(rng)-1))  with rng still normalised.  The
+   stream is then cut to S bytes (ec_enc_shrink) and topped up with raw one-bits to exactly 8*S (must succeed,
+   the bits after the range data are all ones) or 8*S+1 (must be reported as an error). */
+static uint32_t inv_pow2(uint32_t a, int bits) {        /* inverse of odd a modulo 2^bits */
+   uint32_t x = a; int k;
+   for (k = 0; k < 5; k++) x *= 2u - a * x;
+   return bits >= 32 ? x : (x & ((1u << bits) - 1));
+}
+static int find_term_op(const ec_enc *enc, hx_rng *r, op_t *o) {
+   uint32_t V = enc->val, R = enc->rng, start = hx_u(r, 65535), n;
+   uint64_t c0 = (uint64_t)V + R + 1;
+   int top = EC_ILOG(R) - 1;
+   for (n = 0; n < 65535; n++) {
+      uint32_t ft = 2 + (start + n) % 65535, rr = R / ft; int j, v;
+      if (!rr) continue;
+      v = __builtin_ctz(rr);
+      for (j = top; j >= 23; j--) {
+         uint32_t mod = 1u << j, c = (uint32_t)(c0 & (mod - 1)), t0, Rn; int m2 = j - v;
+         if (m2 <= 0 || (c & ((1u << v) - 1))) continue;
+         t0 = ((c >> v) * inv_pow2(rr >> v, m2)) & ((1u << m2) - 1);
+         if (t0 >= ft) continue;
+         if ((uint64_t)rr * t0 >= R) continue;
+         Rn = R - rr * t0;
+         if (Rn <= (1u << 23) || EC_ILOG(Rn) - 1 != j) continue;
+         if ((((uint64_t)V + Rn + 1) & (mod - 1)) != 0) continue;
+         if (t0 == 0 && hx_u(r, 4)) continue;                 /* prefer a real symbol */
+         o->k = K_ENC; o->a0 = 0; o->a1 = ft - t0; o->a2 = ft;
+         return 1;
+      }
+   }
+   return 0;
+}
+static int next_term(void *vc, ec_enc *enc, int i, op_t *o) {
+   rctx_t *c = (rctx_t *)vc; hx_rng *r = c->r;
+   (void)i;
+   if (c->term_phase == 0) {
+      if (c->term_pre-- > 0) { gen_coding(c, o); return 1; }
+      c->term_phase = 1;
+      if (find_term_op(enc, r, o)) return 1;
+      gen_coding(c, o); return 1;
+   }
+   if (c->term_phase == 1) {
+      uint32_t used = enc->offs + enc->end_offs, S = (uint32_t)((ec_tell(enc) + (int)hx_u(r, 60) + 7) / 8);
+      c->term_phase = 2;
+      if (S < used) S = used;
+      if (S < 1) S = 1;
+      if (S > enc->storage) S = enc->storage;
+      c->term_size = (int)S;
+      o->k = K_SHRINK; o->a0 = S; return 1;
+   }
+   {
+      int target = 8 * (int)enc->storage + c->term_over, left = target - ec_tell(enc), nb;
+      if (left <= 0) return 0;
+      nb = left > 25 ? 1 + (int)hx_u(r, 25) : left;
+      o->k = K_BITS; o->a1 = (uint32_t)nb; o->a0 = (1u << nb) - 1;      /* all ones */
+      return 1;
+   }
+}
+
 static void one_random(hx_rng *r, int maxops) {
    rctx_t c; meas_t M; int i, fill;
    static const int fills[] = {0x00, 0xFF, 0xAA, 0x55};
    memset(&c, 0, sizeof c); c.r = r;
-   c.mode = hx_u(r, 6);             /* 0 mix, 1 raw heavy, 2 high symbols (carry chains), 3 patch, 4 tiny buffers, 5 mix */
+   c.mode = hx_u(r, 7);             /* 0 mix, 1 raw heavy, 2 high symbols (carry chains), 3 patch, 4 tiny buffers, 5 mix, 6 termination boundary */
    switch (hx_u(r, 10)) { case 0: case 1: case 2: case 3: c.target = hx_range(r, 1, 20); break;
                           case 4: case 5: case 6: case 7: c.target = hx_range(r, 20, 400); break;
                           default: c.target = hx_range(r, 400, 4000); }
@@ -379,6 +443,12 @@ static void one_random(hx_rng *r, int maxops) {
       if (hx_u(r, 2)) c.patch_at = hx_range(r, 1, 12);
    }
    fill = fills[hx_u(r, 4)];
+   if (c.mode == 6) {
+      c.nplace = 0; c.term_pre = (int)hx_u(r, 12); c.term_over = (int)hx_u(r, 2); c.w[K_BITS] = hx_u(r, 2) ? 0 : 1;
+      if (c.size0 < 80) c.size0 = hx_range(r, 80, 400);
+      run_exec(next_term, &c, c.size0, fill, 0, &M, NULL, NULL, 0);
+      return;
+   }
    run_exec(next_rand, &c, c.size0, fill, c.fit, &M, hx_u(r, 10) == 0 ? r : NULL, NULL, 0);
 }
 
